@@ -1,6 +1,7 @@
 #!/venv/bin/python
-"""seeded_matrix.py <seeded-name> <CHECK-ID> [<CHECK-ID>...] : apply seeded/<name>/patch.diff to /repo, run each check's quick
-tier, always revert, and record the outcome in seeded/<name>/meta.json (detected_by / missed_by)."""
+"""seeded_matrix.py <seeded-name> <CHECK-ID> [<CHECK-ID>...] : run each check's quick tier against a scratch copy of /repo/lib with
+seeded/<name>/patch.diff applied (tools/mutrun.sh; /repo itself is never touched) and record the outcome in seeded/<name>/meta.json
+(detected_by / missed_by)."""
 import json, os, subprocess, sys, time
 name, checks = sys.argv[1], sys.argv[2:]
 d = os.path.join("/verif/seeded", name)
@@ -10,18 +11,21 @@ conf = json.load(open(os.path.join(d, "confirm.json")))
 meta.setdefault("property", conf["property"])
 meta["confirmation"] = conf
 meta.setdefault("checks", {})
-assert subprocess.run(["git", "-C", "/repo", "status", "--porcelain", "--untracked-files=no"], capture_output=True, text=True).stdout.strip() == "", "repo dirty"
-subprocess.run(["git", "-C", "/repo", "apply", os.path.join(d, "patch.diff")], check=True)
-try:
-    for c in checks:
-        t0 = time.time()
-        p = subprocess.run(["/verif/check", c, "--tier", "quick"], capture_output=True, text=True, cwd="/verif")
-        lines = [l for l in p.stdout.splitlines() if l.startswith("VIOLATION")]
-        meta["checks"][c] = {"exit": p.returncode, "detected": p.returncode == 1 and bool(lines), "wall_s": round(time.time() - t0, 1),
-                             "first_violation": lines[0][:300] if lines else None, "repo_head": conf.get("repo_head")}
-        print(name, c, "exit", p.returncode, lines[0][:160] if lines else p.stdout.strip().splitlines()[-1][:160])
-finally:
-    subprocess.run(["git", "-C", "/repo", "checkout", "--", "."], check=True)
+notes = os.path.join(d, "agent_notes.md")
+if os.path.exists(notes) and "needs" not in meta:
+    meta["needs"] = "see agent_notes.md (what the change needs in order to manifest)"
+head = subprocess.run(["git", "-C", "/repo", "rev-parse", "--short", "HEAD"], capture_output=True, text=True).stdout.strip()
+for c in checks:
+    t0 = time.time()
+    p = subprocess.run(["/verif/tools/mutrun.sh", os.path.join(d, "patch.diff"), c, "--tier", "quick"] + os.environ.get("MATRIX_ARGS", "").split(),
+                       capture_output=True, text=True, cwd="/verif")
+    lines = [l for l in p.stdout.splitlines() if l.startswith("VIOLATION")]
+    rc = [l for l in p.stdout.splitlines() if l.startswith("exit=")]
+    rc = int(rc[-1][5:]) if rc else p.returncode
+    meta["checks"][c] = {"exit": rc, "detected": rc == 1 and bool(lines), "wall_s": round(time.time() - t0, 1),
+                         "first_violation": lines[0][:300] if lines else None, "repo_head": head,
+                         "ran": "tools/mutrun.sh seeded/%s/patch.diff %s --tier quick" % (name, c)}
+    print(name, c, "exit", rc, lines[0][:160] if lines else (p.stdout.strip().splitlines() or ["?"])[-2][:160])
 meta["detected_by"] = sorted(c for c, r in meta["checks"].items() if r["detected"])
 meta["missed_by"] = sorted(c for c, r in meta["checks"].items() if not r["detected"])
 json.dump(meta, open(meta_p, "w"), indent=1)
